@@ -28,10 +28,10 @@ LEVEL = "model_checking"
 # K: one K-th of the non-core binary cases; record: traces, operations per trace
 TIERS = {
     "quick": dict(K=100, rich=0, record=(20, 300), workers=4, timeout=900),
-    "thorough": dict(K=5, rich=1, record=(150, 1000), workers=4, timeout=5400),
+    "thorough": dict(K=4, rich=1, record=(150, 1000), workers=4, timeout=5400),
 }
 
-ALL_OPS = ["Set", "Neg", "Abs", "Sqrt", "Sin", "Sinh", "Cos", "Cosh", "Tan", "Tanh", "Exp", "Log", "Log1p", "Log1pExp",
+ALL_OPS = ["Set", "Reset", "Neg", "Abs", "Sqrt", "Sin", "Sinh", "Cos", "Cosh", "Tan", "Tanh", "Exp", "Log", "Log1p", "Log1pExp",
            "Logistic", "Sigmoid", "Erf", "Erfc", "LogErfc", "Gamma", "Lgamma", "Add", "Sub", "Mul", "Div", "Pow",
            "Min", "Max", "LogAdd", "LogSub", "Mlgamma", "GammaP", "BesselI", "LogBesselI", "Vmean", "VdotV", "Vnorm",
            "SmoothMax", "LogSmoothMax", "Mtrace", "Mnorm", "Sign", "Greater", "Smaller", "Equals",
@@ -220,3 +220,32 @@ def replay(ctx, path):
             f.write(json.dumps(d["case"]) + "\n")
         run_replay(ctx, binary, cases, "replay")
     return ctx.finish(rule="replay of one recorded violation", evaluations=1, distinct_nontrivial=1)
+
+
+MANIFEST = {
+    "engine": "scalartypes",
+    "spec": "spec/ScalarTypes.tla",
+    "engine_text": "ScalarTypes.tla (contract: type table, 64-bit two's-complement integers as byte vectors, Embed/Convert by "
+                   "Go's conversion rules with exact round-to-nearest-even, integer ring modulo 2^w, order/sign/min/max in the "
+                   "receiver's representation, IEEE result classes), Expr.tla (meaning terms), ScalarTypesCases.tla (case "
+                   "enumeration), ScalarTypesTrace.tla (trace validation); Go driver harness/cmd/scalartypes, term evaluator "
+                   "harness/exprlib",
+    "technique": "TLA+ contract evaluated by TLC: every (operation, receiver type, operand types, operand values) case is printed "
+                 "with the demanded result (exact value, meaning term, IEEE token, panic-allowed, implementation-defined) and "
+                 "executed on the real scalar types; recorded random pool histories of the real types are validated by a TLC "
+                 "trace specification that recomputes every integer / conversion / comparison result exactly",
+    "text": "TLC enumerates 75 operations x 9 receiver types x 16 operand types (all 256 ordered operand type pairs for the binary "
+            "operations: a deterministic core plus a seed-dependent covering sample) x a 60-value grid (small integers, the bounds "
+            "of every integer width and their neighbours, 2^24+1, 2^53+1, halves and quarters, -0, +-Inf, NaN, powers of two "
+            "beyond int64) and prints each case with the result the contract demands. The driver executes the case through the "
+            "ConstScalar/Scalar/MagicScalar interfaces and the type-specific CAPITAL methods, with magic operands as constants "
+            "and as order-1/2 variables, and compares integers and exact values exactly, real-valued results against the "
+            "evaluated meaning term within the precision of the receiver's storage type (integer receivers: one unit), "
+            "results of the same operands through different types against each other, conversions by value and reflect type, "
+            "panics against panic-allowed. Seeded random histories over a pool of scalars whose slots change type through "
+            "conversions are accepted by ScalarTypesTrace.tla. Bounded, point-wise conformance; not a proof.",
+    "note": "Trusted: TLC, CommunityModules Json, Go's math package as evaluator of the term leaves, the driver's projection "
+            "(GetInt64/GetFloat64, reflect type). Int is assumed 64 bits wide. Known findings: Mnorm (sum of squares, modelled "
+            "deviation) and the Real32/Real64 twins of three defects repaired on branch agent/c01.",
+    "design_ref": "DESIGN.md section 5 (C02), section 4 (ScalarTypes.tla, Expr.tla), section 3.4 (tolerances)",
+}
